@@ -121,9 +121,70 @@ def preload_shard(shard):
     return p
 
 
+PHASE_TEXTS = [
+    "lui x3, 4\nsw x3, 0(x3)\nlw x1, 64(x3)\nsw x1, 128(x3)\nlw x2, 0(x3)\nlw x4, 64(x3)\nsb x4, 129(x3)\n",
+    ".data\na: .word 1, 2, 3, 4\n.text\nla x3, a\nlw x1, 0(x3)\nlw x2, 4(x3)\nsw x2, 8(x3)\nlb x5, 12(x3)\nsb x5, 1(x3)\nlw x6, 256(x3)\nlw x7, 0(x3)\n",
+    "",
+]
+PHASE_STEPS = (0, 1, 2, 3, 5, 99)
+
+
+def phase_history(xi, yi, k, ci, mode):
+    """load X; k steps; load Y; run — on ONE simulation. In each phase every counted miss adds exactly the penalty:
+    d(cycles) = d(cycles of the same history without a data cache) + penalty * (d(accesses) - d(hits))."""
+    from architecture_simulator.simulation.riscv_simulation import RiscvSimulation
+    ib, bb, ways, kind, policy = c03.PROG_CACHES[ci]
+    pen = (2, 3, 1, 5, 4, 7)[ci]
+    sims = (RiscvSimulation(mode=mode, data_cache=rv.cache_opts(ib, bb, ways, kind, policy, pen)), RiscvSimulation(mode=mode))
+    bad = []
+
+    def snap():
+        st = sims[0].get_data_cache_stats()
+        return int(st["accesses"]), int(st["hits"]), sims[0].state.performance_metrics.cycles, sims[1].state.performance_metrics.cycles
+
+    for phase, (ti, steps) in enumerate(((xi, k), (yi, 400))):
+        for s_ in sims:
+            s_.load_program(PHASE_TEXTS[ti])
+        a0, h0, c0, u0 = snap()
+        n = 0
+        while n < steps and not sims[0].is_done():
+            for s_ in sims:
+                s_.step()
+            n += 1
+        a1, h1, c1, u1 = snap()
+        misses = (a1 - a0) - (h1 - h0)
+        if (c1 - c0) != (u1 - u0) + pen * misses:
+            bad.append(("phase-penalty", f"phase {phase + 1} ({n} steps of program {ti}): cycle counter advanced by {c1 - c0}, the same steps without a data cache take "
+                        f"{u1 - u0}, {misses} counted misses x penalty {pen}"))
+            break
+    return bad, misses
+
+
+def phase_shard(shard):
+    xi = shard
+    p = Partial()
+    for yi in range(len(PHASE_TEXTS)):
+        for k in PHASE_STEPS:
+            for ci in range(len(c03.PROG_CACHES)):
+                for mode in (rv.SINGLE, rv.FIVE):
+                    bad, misses = phase_history(xi, yi, k, ci, mode)
+                    p.evaluations += 1
+                    if k and misses:
+                        p.nontrivial += 1
+                        p.counters["miss-after-a-reload-of-a-started-simulation"] += 1
+                    for f, d in bad:
+                        p.violation(dict(oracle="phase", field=f), dict(kind="phase", xi=xi, yi=yi, k=k, ci=ci, mode=mode),
+                                    f"load P{xi}; {k} steps; load P{yi}; run [{'/'.join(map(str, c03.PROG_CACHES[ci]))}] {mode}: {d}", size=(k, xi, yi, ci))
+    p.sample(dict(kind="phase", xi=0, yi=1, k=3, ci=0, mode=rv.FIVE))
+    return p
+
+
 def replay(case):
     if case["kind"] == "cache-history":
         return cachebfs.replay(case)
+    if case["kind"] == "phase":
+        bad, _m = phase_history(case["xi"], case["yi"], case["k"], case["ci"], case["mode"])
+        return [(dict(oracle="phase", field=f), d) for f, d in bad]
     if case["kind"] == "preload":
         part = preload_shard(case["ti"])
         return [(lst[0][1], lst[0][3]) for _k, (n, lst) in part.viol.items()]
@@ -159,7 +220,7 @@ def run(ctx):
                 "replayed on fresh objects; per transition d(accesses), d(hits), last_hit and d(cycles) must equal a reference set-associative "
                 "cache (write-back = write-allocate, write-through = no-write-allocate, reads always allocate, LRU/PLRU from the reference "
                 "policies); in every state the resident (set, tag) pairs shown by cache_repr() equal the reference's (one-step look-ahead). "
-                "Control fixed point: with constant data the BFS runs to closure. Preload clause: after load_program of programs with every kind of data declaration (loaded once or twice) counters and cycle counter are untouched and the first counted access afterwards is a cold miss with its penalty. Program clause: counters identical in both pipeline modes, "
+                "Control fixed point: with constant data the BFS runs to closure. Preload clause: after load_program of programs with every kind of data declaration (loaded once or twice) counters and cycle counter are untouched and the first counted access afterwards is a cold miss with its penalty. Reload clause: histories load X; k steps; load Y; run on one simulation, in each phase d(cycles) = d(cycles without a data cache) + penalty x counted misses. Program clause: counters identical in both pipeline modes, "
                 "accesses = loads+stores of the golden run, hits = reference cache on the golden access stream. Non-trivial = history with an "
                 "eviction or rejection / program with both hits and misses.")
     ctx.assumptions += ["counter values are excluded from the state key (their deltas are checked on every transition); whether any counted access and any hit has happened yet is part of it",
@@ -200,3 +261,7 @@ def run(ctx):
     part = pmap(preload_shard, list(range(len(PRELOAD_TEXTS))))
     ctx.space("parser-preloads", part, t0, texts=len(PRELOAD_TEXTS), cache_configs=6, modes=2)
     ctx.require("preload")
+    t0 = time.time()
+    part = pmap(phase_shard, list(range(len(PHASE_TEXTS))))
+    ctx.space("penalties-across-reloads", part, t0, histories="load X; k steps; load Y; run", programs=len(PHASE_TEXTS), steps=list(PHASE_STEPS), cache_configs=6, modes=2)
+    ctx.require("miss-after-a-reload-of-a-started-simulation")
